@@ -36,10 +36,12 @@ var (
 	tA  = progen.StructT("A")
 	tB  = progen.StructT("B")
 	tW  = progen.StructT("W")
+	// D: members of one base type at different array depths
+	tD = progen.StructT("D")
 )
 
 func baseTypes() []*progen.T {
-	return []*progen.T{progen.IntT, progen.FloatT, progen.StringT, progen.BoolT, progen.MapT, progen.FileT, progen.PathT, txt, bam, tA, tB}
+	return []*progen.T{progen.IntT, progen.FloatT, progen.StringT, progen.BoolT, progen.MapT, progen.FileT, progen.PathT, txt, bam, tA, tB, tD}
 }
 
 func baseOf(t *progen.T) *progen.T {
@@ -70,6 +72,7 @@ func newProgram() *progen.Program {
 	p.Structs = []*progen.StructDecl{
 		{Name: "B", Fields: []progen.Param{{T: progen.IntT, Name: "x"}}},
 		{Name: "A", Fields: []progen.Param{{T: progen.IntT, Name: "x"}, {T: progen.StringT, Name: "s"}, {T: progen.ArrayOf(progen.IntT), Name: "v"}}},
+		{Name: "D", Fields: []progen.Param{{T: progen.IntT, Name: "x"}, {T: progen.ArrayOf(progen.IntT), Name: "v"}}},
 	}
 	return p
 }
